@@ -107,7 +107,7 @@ def mkTcoordA (ds : Rat → Rat) (name : Coded) (rangeType : String) (pos : Opti
   match base .tcoord name rel with
   | .error e => .error e
   | .ok _ =>
-    if !(enumHas Gen.srTemporalRangeTypes rangeType) then .error .value
+    if !(enumHas Gen.c13TemporalRangeTypes rangeType) then .error .value
     else
       let len {α} (o : Option (List α)) : Int := match o with | none => 0 | some l => l.length
       match Gen.tcoordArgCheck pos.isSome (len pos) off.isSome (len off) dts.isSome (len dts) with
